@@ -24,3 +24,8 @@ package models
 //@   trusted
 //@   modifies nothing
 //@   ensures fresh(result)
+
+// Wrapping a snapshot or an identity for the API only builds a value.
+//@ func NewLoadedBug
+//@ func NewLoadedIdentity
+//@   modifies nothing
